@@ -17,29 +17,13 @@ theorem layout_ok : settingHeaderWidths = [2, 2, 2] ∧ metaBeaconXorKey = beaco
 
 theorem options_distinct : (GuardOption.map Prod.snd).Nodup ∧ ("GUARD_PAYLOAD_CHECKSUM", GUARD_PAYLOAD_CHECKSUM) ∈ GuardOption := by decide
 
-/-- masked starts the scan compares against -/
-def maskedStarts (xorkey : Bytes) : List Bytes := GUARD_CONFIG_STARTS.map (C20.xor · xorkey)
-
 /-- The scan never raises (BytesIO or OS file, any mask key) and reports, in increasing offset order, exactly the
-offsets where the marker relation holds and a 6144-byte area fits in front. -/
+offsets where the marker relation holds and a 6144-byte area fits in front.  (Proved next to the model because the
+compiled driver's linear-time scan is justified by it, see `iterGuardrailConfigs_eq_probe`.) -/
 theorem iterGuardrailConfigs_eq (f : PyFile) (xorkey : Bytes) :
     iterGuardrailConfigs f xorkey =
-      .ok ((List.range f.data.length).filterMap (probeAt f.data (maskedStarts xorkey) 6 xorkey)) := by
-  unfold iterGuardrailConfigs
-  have hs : GUARD_CONFIG_STARTS.map (C20.xor · xorkey) = maskedStarts xorkey := rfl
-  simp only [hs]
-  cases hm : maskedStarts xorkey with
-  | nil => simp [maskedStarts, GUARD_CONFIG_STARTS] at hm
-  | cons s0 rest =>
-    have h6 : s0.length = 6 := by
-      have : s0 ∈ maskedStarts xorkey := by rw [hm]; simp
-      simp only [maskedStarts, List.mem_map] at this
-      obtain ⟨s, hs, rfl⟩ := this
-      rw [xor_length]; exact starts_length s hs
-    simp only []
-    rw [h6, ← hm]
-    have := scanLoop_eq (maskedStarts xorkey) 6 (by omega) xorkey f.data.length f 0 (by omega)
-    rw [this, List.range_eq_range']
+      .ok ((List.range f.data.length).filterMap (probeAt f.data (maskedStarts xorkey) 6 xorkey)) :=
+  iterGuardrailConfigs_eq_probe f xorkey
 
 theorem iterGuardrailConfigs_total (f : PyFile) (xorkey : Bytes) :
     ∃ ms, iterGuardrailConfigs f xorkey = .ok ms := ⟨_, iterGuardrailConfigs_eq f xorkey⟩
@@ -62,6 +46,62 @@ theorem scan_reports_iff (f : PyFile) (xorkey : Bytes) (ms : List Meta) (h : ite
     · cases hp
   · rintro ⟨off, hlt, h1, h2, rfl⟩
     exact ⟨off, hlt, by rw [if_pos ⟨h1, h2⟩]⟩
+
+/-- **scan_position_independent**: putting any prefix `p` in front of a file moves every record the scan reported for
+the file by `|p|` and changes nothing else; the only additional records are ones whose marker lies in the prefix or in
+the first 6138 bytes of the old content (their 6144-byte area reaches into the prefix).  In particular no file position
+— block boundary or otherwise — is special. -/
+theorem scan_position_independent (p data key : Bytes) (ms : List Meta)
+    (h : iterGuardrailConfigs (PyFile.ofBytes data) key = .ok ms) :
+    ∃ early, iterGuardrailConfigs (PyFile.ofBytes (p ++ data)) key = .ok (early ++ ms.map (Meta.shift p.length)) ∧
+      ∀ m ∈ early, m.guardConfigOffset < p.length + BEACON_CONFIG_PATCH_SIZE := by
+  rw [iterGuardrailConfigs_eq] at h
+  injection h with h
+  subst h
+  simp only [PyFile.ofBytes]
+  generalize hc : min (BEACON_CONFIG_PATCH_SIZE - 6) data.length = c
+  have hB : 6 ≤ BEACON_CONFIG_PATCH_SIZE := by decide
+  have hc1 : c ≤ data.length := by omega
+  have hc2 : c ≤ BEACON_CONFIG_PATCH_SIZE - 6 := by omega
+  have hc3 : 0 < data.length - c → c = BEACON_CONFIG_PATCH_SIZE - 6 := by omega
+  refine ⟨(List.range' 0 (p.length + c)).filterMap (probeAt (p ++ data) (maskedStarts key) 6 key), ?_, ?_⟩
+  · rw [iterGuardrailConfigs_eq]
+    simp only [List.length_append]
+    congr 1
+    -- split both ranges at the cut
+    have hs1 : List.range (p.length + data.length)
+        = List.range' 0 (p.length + c) ++ List.range' (p.length + c) (data.length - c) := by
+      rw [List.range_eq_range']
+      have := List.range'_append_1 (s := 0) (m := p.length + c) (n := data.length - c)
+      rw [Nat.zero_add] at this
+      rw [this]; congr 1; omega
+    have hs2 : List.range data.length = List.range' 0 c ++ List.range' c (data.length - c) := by
+      rw [List.range_eq_range']
+      have := List.range'_append_1 (s := 0) (m := c) (n := data.length - c)
+      rw [Nat.zero_add] at this
+      rw [this]; congr 1; omega
+    rw [hs1, hs2, List.filterMap_append, List.filterMap_append]
+    congr 1
+    have hnone : (List.range' 0 c).filterMap (probeAt data (maskedStarts key) 6 key) = [] := by
+      rw [List.filterMap_eq_nil_iff]
+      intro off hoff
+      simp only [List.mem_range'_1] at hoff
+      exact probeAt_none_early data _ key off (by omega)
+    rw [hnone, List.nil_append, List.map_filterMap]
+    have hmap : List.range' (p.length + c) (data.length - c) = (List.range' c (data.length - c)).map (p.length + ·) := by
+      rw [List.map_add_range']
+    rw [hmap, List.filterMap_map]
+    apply filterMap_congr'
+    intro off hoff
+    simp only [List.mem_range'_1] at hoff
+    have := hc3 (by omega)
+    simp only [Function.comp]
+    exact probeAt_shift p data (maskedStarts key) key off (by omega)
+  · intro m hm
+    simp only [List.mem_filterMap, List.mem_range'_1] at hm
+    obtain ⟨off, hoff, hp⟩ := hm
+    rw [probeAt_gco hp]
+    omega
 
 /-! ### guard unmasking and the marker -/
 
